@@ -48,18 +48,72 @@ pub fn outcome_gate(v: &RunView, verdict: &mut Verdict) -> bool {
     }
 }
 
-/// Signature of a deadlock: sorted "name:holds..>wants" tuples with task numbers removed.
+/// Signature of a deadlock: the wait-for cycle(s) among tasks blocked on rFSM locks. For every task on a
+/// cycle: role, the class of the held lock the previous task on the cycle waits for, and the wanted
+/// class. Tasks that are merely blocked behind the cycle are not part of the signature. A task that
+/// waits for a lock it holds itself is a cycle of length one.
 pub fn deadlock_signature(tasks: &[crate::sim::TaskLockState]) -> String {
-    let mut parts: Vec<String> = tasks
-        .iter()
-        .filter(|t| t.wants.is_some())
-        .map(|t| {
-            let role = role_of(&t.name);
-            format!("{}:{}>{}", role, t.holds.join("+"), t.wants.clone().unwrap_or_default())
-        })
-        .collect();
-    parts.sort();
-    parts.join(" | ")
+    use std::collections::BTreeMap;
+    let by_task: BTreeMap<usize, &crate::sim::TaskLockState> = tasks.iter().map(|t| (t.task, t)).collect();
+    let mut cycles: Vec<String> = Vec::new();
+    let mut on_cycle: std::collections::BTreeSet<usize> = Default::default();
+    for t in tasks {
+        if on_cycle.contains(&t.task) || t.wants.is_none() {
+            continue;
+        }
+        // follow blocked_by until we come back to a visited task
+        let mut path: Vec<usize> = vec![t.task];
+        let mut cur = t.task;
+        let found: Option<usize> = loop {
+            let nxt = match by_task.get(&cur).and_then(|x| x.blocked_by) {
+                Some(n) => n,
+                None => break None,
+            };
+            if let Some(pos) = path.iter().position(|x| *x == nxt) {
+                break Some(pos);
+            }
+            if by_task.get(&nxt).map(|x| x.wants.is_none()).unwrap_or(true) {
+                break None; // chain ends at a task that is not waiting for a lock
+            }
+            path.push(nxt);
+            cur = nxt;
+        };
+        if let Some(pos) = found {
+            let cyc: Vec<usize> = path[pos..].to_vec();
+            if cyc.iter().any(|c| on_cycle.contains(c)) {
+                continue;
+            }
+            let n = cyc.len();
+            let mut parts: Vec<String> = Vec::new();
+            for i in 0..n {
+                let me = by_task[&cyc[i]];
+                let prev = by_task[&cyc[(i + n - 1) % n]];
+                // the lock of mine that prev waits for
+                let held_class = prev
+                    .wants_id
+                    .and_then(|wid| me.holds_ids.iter().position(|h| *h == wid))
+                    .map(|p| me.holds[p].clone())
+                    .unwrap_or_else(|| "?".into());
+                parts.push(format!("{}[{}]>{}", role_of(&me.name), held_class, me.wants.clone().unwrap_or_default()));
+            }
+            // canonical rotation
+            let mut best = parts.clone();
+            for r in 1..n {
+                let mut rot = parts.clone();
+                rot.rotate_left(r);
+                if rot < best {
+                    best = rot;
+                }
+            }
+            for c in &cyc {
+                on_cycle.insert(*c);
+            }
+            cycles.push(best.join(" -> "));
+        }
+    }
+    cycles.sort();
+    cycles.dedup();
+    cycles.join(" || ")
 }
 
 pub fn role_of(name: &str) -> &'static str {
